@@ -34,7 +34,7 @@ def run(ctx) -> None:
     from ._parser import forwarding_rule, instr_patterns, lines_parsed_independently, site_field_kinds
     forwarding_rule(ctx, "C08.K3.one-per-line-in-file-order")
     lines_parsed_independently(ctx, "C08.K3.lines-parsed-independently")
-    _paths, sites, _pats = instr_patterns(make_interp(ctx.p))
+    _paths, sites, _pats = instr_patterns(make_interp(ctx.p), ctx)
     site_field_kinds(ctx, "C08.K4.address-and-mnemonic-are-the-lines-own", make_interp(ctx.p), sites)
     # K2b: the pseudo instruction of a byte-continuation line is removed before it reaches the stream
     from ..matchflow import match_interp, match_scenarios
